@@ -32,6 +32,8 @@ pub enum Op {
     /// engine message by trader 0 naming the address "<vamm>0" (not a contract): with trader "0alice" holding a
     /// position this aliases its storage key if keys are concatenated without separator
     Alias { kind: u8, v: u8, amt: u16 },
+    /// the vAMM owner re-points the vAMM's insurance-fund (what even) or margin-engine (what odd) setting to an outside address, or back
+    Rewire { v: u8, what: u8 },
 }
 
 #[derive(Clone, Debug, Serialize, Deserialize, PartialEq, Eq, Hash)]
@@ -63,6 +65,7 @@ pub struct Weights {
     pub shutdown: u32,
     pub alien: u32,
     pub alias: u32,
+    pub rewire: u32,
 }
 
 impl Weights {
@@ -88,6 +91,7 @@ impl Weights {
             shutdown: 0,
             alien: 0,
             alias: 0,
+            rewire: 0,
         }
     }
 }
@@ -160,7 +164,7 @@ pub fn vamm_cfg_strategy(d: u128, p: &CfgProfile) -> BoxedStrategy<VammCfg> {
     (
         (sel(prices), sel(depths), any::<u32>(), any::<u32>()),
         (sel(fee_tab.clone()), sel(fee_tab), sel(fluct_tab)),
-        sel(vec![86400u64, 3600]),
+        sel(vec![86400u64, 3600, 86400, 3600, 5400, 1800, 9000, 43200]),
         (sel(cap_tab.clone()), sel(cap_tab)),
         sel(vec![100u128, 100, 101, 95, 105, 109, 91, 111, 89, 120, 80, 150, 50]),
         (0u8..10, 0u8..10),
@@ -290,12 +294,13 @@ pub fn op_strategy(w: &Weights) -> BoxedStrategy<Op> {
         (w.shutdown, 17),
         (w.alien, 18),
         (w.alias, 19),
+        (w.rewire, 20),
     ]
     .into_iter()
     .filter(|(wt, _)| *wt > 0)
     .collect();
     let total: u32 = table.iter().map(|(wt, _)| *wt).sum();
-    (0u32..total.max(1), 0u8..6, 0u8..4, any::<bool>(), any::<u16>(), any::<u16>(), 0u8..12, 0u8..8)
+    (0u32..total.max(1), 0u8..6, 0u8..4, any::<bool>(), any::<u16>(), any::<u16>(), 0u8..12, 0u8..9)
         .prop_map(move |(k, t, v, b, k1, k2, s1, s2)| {
             let mut acc = 0u32;
             let mut kind = table[0].1;
@@ -326,7 +331,8 @@ pub fn op_strategy(w: &Weights) -> BoxedStrategy<Op> {
                 16 => Op::Whitelist { t, add: b },
                 17 => Op::Shutdown,
                 18 => Op::RegisterAlien { add: b },
-                _ => Op::Alias { kind: s1 % 6, v, amt: k1 },
+                19 => Op::Alias { kind: s1 % 6, v, amt: k1 },
+                _ => Op::Rewire { v, what: s1 },
             }
         })
         .boxed()
